@@ -319,6 +319,12 @@ def chkC08 (m : Mon) (r : StepRec) : Bool :=
     | none => r.after.rt0.cells == r.before.rt0.cells && r.after.rt1.cells == r.before.rt1.cells
 
 /-! ## C07: progressive texts only improve -/
+/-- the weighted level of a reception with block-B error `eb` and carrying-block error `ex` (C06) -/
+def recvLevel (eb ex : Nat) : Nat := if eb = 0 && ex = 0 then 0 else 2 * eb + 3 * ex - 1
+
+/-- C07: with progressive correction on for a text (before the call) and the call not resetting that buffer, no
+cell's level increases, and a cell's character is replaced only by a reception addressed to that cell whose
+weighted level (on the call's own error codes) is not worse than the cell's current level -/
 def chkC07 (m : Mon) (r : StepRec) : Bool :=
   match r.op with
   | .init | .clear => true
@@ -331,7 +337,11 @@ def chkC07 (m : Mon) (r : StepRec) : Bool :=
       (List.range (r.before.text t).cells.length).all fun i =>
         let c := (r.before.text t).cells.getD i blank
         let c' := (r.after.text t).cells.getD i blank
-        c'.lvl ≤ c.lvl
+        c'.lvl ≤ c.lvl &&
+        (c'.ch == c.ch ||
+          (match r.op.group? with
+           | some g => (addressed g).any (fun a => a.1 == t && a.2.1 == i && decide (recvLevel g.eb a.2.2.2 ≤ c.lvl))
+           | none => false))
 
 /-! ## C04: callbacks against getter changes -/
 
